@@ -183,6 +183,17 @@ def drive(item):
                 extra['_cost'] = n
                 recs.append(extra)
             dec = BeliefPropagationOSDDecoder(code, em, p)
+            # channel_update switched on by a truthy value that is not the object True:
+            # after one decode the X decoder must hold the CONDITIONAL priors
+            if code.is_css:
+                flag = (np.True_, 1, True)[(pn + r[0]) % 3]
+                decf = BeliefPropagationOSDDecoder(code, em, p, max_bp_iter=3, osd_order=0,
+                                                   channel_update=flag)
+                m_ = code.stabilizer_matrix.shape[0]
+                decf.decode(np.zeros(m_, dtype=np.uint8))
+                xs = np.asarray(decf.x_decoder.channel_probs)
+                for q in range(n):
+                    rec['upd'].append({'q': q + 1, 'dir': 'z->x', 'flip': False, 'k': to_g(xs[q])})
             for direction in ('z->x', 'x->z'):
                 corr = (rng.random(n) < 0.5).astype(int)
                 with np.errstate(all='ignore'):
